@@ -160,6 +160,8 @@ struct RefResult
     // reach probes
     int rec_pops_min = -1, rec_pops_max = -1; bool rec_fail_stack = false, rec_fail_eof = false; int discarded_terms = 0;
     bool reduce_on_error_token = false;
+    bool reduce_after_pop = false;            // a state exposed by popping reduced under the error symbol
+    bool eof_acted_on_in_consume = false;     // the discard phase ended because <eof> itself was actionable
     bool error_in_consume_lexical = false;
     bool step_limit = false;
 };
